@@ -485,8 +485,8 @@ class C05(Prop):
     assumptions = ["json.load / configparser invert the printers on what the writers produce (exercised on every case)",
                    "documents reach both sides with object keys in sorted order (json.dumps(sort_keys=True)); key order is observable "
                    "only through which of several errors is raised first",
-                   "treeinfo 0.0 (pre-productmd) has no documented mapping: only idempotence, the shipped fixtures and correspondence "
-                   "with the model of the heuristics are claimed",
+                   "treeinfo 0.0 (pre-productmd) has no documented mapping: idempotence, the shipped fixtures, the literal mapping table, "
+                   "per-section closed forms (C05_ti_00_*) and correspondence with the model of the heuristics are claimed",
                    "int(float(text)) of CPython is supplied to the model as an oracle table (floats are never computed in Lean)"]
     partial = {
         "C05_images_idempotent_partial": "hypothesis Uniq (identity collisions): automatic from 1.1 on (C05_images_uniq_from_1_1), a real "
@@ -502,12 +502,20 @@ class C05(Prop):
                              "load does not establish (F17 timestamp, F24 top-level addon, F25 platform name, comma-free non-empty distinct "
                              "UIDs / platforms, text representability, ReadValid of the normal form); timestamp integrality, UID keying, "
                              "ChecksumsOK and image keys are discharged from the legacy reader",
-        "C05_ci_upgrade_witness": "faithfulness for composeinfo is proved per section / on witnesses (C05_ci_upgrade_witness, "
-                        "C05_ci_faithful_product_not_internal); the general forest theorem deserialize_v (down_v x) = ok (expect_v x) is "
-                        "not proved (validated per case by the spec-level down-converter)",
+        "C05_ci_faithful_down": "general: Legacy.deserialize (CI.down vs ver keep ci) = ok (CI.expected ver keep ci) for every WellKeyed ci, "
+                                "every version; side conditions exact and decidable - IdDerivable below 0.3 (date/type/respin are decoded "
+                                "from the id: F10/F24), LegacyDomain below 1.0 (KidsExact and TopsExact on the uid-keyed table: depth <= 2 "
+                                "and no top-level UID a dash-extension of another; F32 shows necessity, C05_ci_down_domain_needed); "
+                                "CI.down / CI.expected are tied to legacy.ci_down / ci_expect on every ci case",
+        "C05_ti_faithful_down": "general for every header version but 0.0: Legacy.deserialize (TI.down vs ver ck t) = ok (norm t); hypotheses "
+                                "are those of C04_tree_readback plus, only for <= 0.3, ChainOK (option_lookup chain meets no other "
+                                "variant's section) and SrcRepresentable (no binary paths on a source tree), both decidable and shown "
+                                "necessary (C05_ti_down_conditions_needed); TI.down is tied to legacy.ti_sections on every ti case",
         "C05_rpms_faithful_witness": "the general re-filing statement for 0.3 manifests is C10's (C10_rpms_refile); here a witness",
-        "C05_ti_upgrade_0_0_witness": "treeinfo 0.0 has no documented mapping other than the code: only idempotence, the 60 shipped "
-                                      "pre-productmd fixtures and correspondence of the modelled heuristics are claimed",
+        "C05_ti_upgrade_0_0_witness": "treeinfo 0.0 has no documented mapping other than the code: per-section closed forms for any file "
+                                      "(C05_ti_00_tree / _release / _media / _relative_paths / _top_variant / _general_variant / "
+                                      "_general_paths), idempotence, the 60 shipped pre-productmd fixtures, the literal-table oracle and "
+                                      "correspondence of the modelled heuristics; no TI.down for 0.0 (the layout loses facts)",
     }
 
     def __init__(self):
@@ -1219,11 +1227,18 @@ MANIFEST = dict(
          "successful dump (C05_ci_idempotent, _bytes), treeinfo for every header version with C04_tree_bytes (C05_ti_idempotent: timestamp "
          "integrality, UID keying, ChecksumsOK, image keys discharged from the legacy reader; F17/F24/F25 and file-syntax conditions carried, "
          "all satisfied by the 0.3 and 0.0 witnesses). Faithful: images subvariant default and version independence from 1.1 (all 15 "
-         "attributes), product section never internal, prefix forest = explicit child lists for top level and children under stated "
-         "conditions (C05_ci_faithful_tops / _children), witnesses for rpms 0.2, composeinfo 0.2, treeinfo 0.3 and 0.0 evaluated in the "
-         "kernel; F11 / F12 / F32 / not-Normal witnesses.",
-    note="Partial: the two forest-faithfulness facts are not assembled through buildL into deserialize(down d) = deserialize d (validated per "
-         "case); C01's Normal is false of what the composeinfo reader returns (witness) and is settled by the first write. treeinfo 0.0 "
-         "mapping: fixtures + correspondence + idempotence only. Known findings met: F10, F11, F12, F24, F32. Documents reach both sides "
+         "attributes; whole documents with the src re-filing: C10_images_refile), product section never internal, prefix forest = "
+         "explicit child lists (C05_ci_faithful_tops / _children). GENERAL DOWN-CONVERSION THEOREMS: composeinfo - "
+         "Legacy.deserialize (CI.down vs ver keep ci) = ok (CI.expected ver keep ci) for every version and every WellKeyed description in the "
+         "faithful domain (C05_ci_faithful_down; no condition from 1.0 on; lossless from 1.1 with internal; then idempotent incl. bytes through "
+         "the modelled json.loads); treeinfo - Legacy.deserialize (TI.down vs ver ck t) = ok (norm t) for every header version but 0.0, forests "
+         "of any depth (C05_ti_faithful_down: [product], no parent, addons/variants, option_lookup chains, src swap; C05_ti_header_only for any "
+         "file differing from an accepted one only in [header]); 0.0: per-section closed forms for any file (C05_ti_00_*). CI.down / "
+         "CI.expected / TI.down are compared with the harness's spec-side down-converters on every generated case. Witnesses for rpms 0.2, "
+         "composeinfo 0.2, treeinfo 0.3 and 0.0 evaluated in the kernel; F11 / F12 / F32 / not-Normal / necessity witnesses.",
+    note="Faithful domains are exact side conditions with decided necessity witnesses (composeinfo < 1.0: F32 depth / dashed prefixes, < 0.3: "
+         "id-derivable date; treeinfo <= 0.3: lookup-chain ambiguity, binary paths on a source tree). C01's Normal is false of what the "
+         "composeinfo reader returns (witness) and is settled by the first write. treeinfo 0.0: no down-conversion is claimed (the layout "
+         "loses facts); rpms 0.3 re-filing in general form is C10's (C10_rpms_refile). Known findings met: F10, F11, F12, F24, F32. Documents reach both sides "
          "with sorted keys; int(float(text)) is an oracle table.",
     ref="7/C05")
